@@ -98,3 +98,16 @@ Theorem C17_mfi_forgets : forall p s (B1 B2 : list mbar) c1 c2, mfi_new XROps p 
   lastn (S (N.to_nat p)) (B1 ++ [c1]) = lastn (S (N.to_nat p)) (B2 ++ [c2]) ->
   last (mfi_outs s (map mkm (B1 ++ [c1]))) XNaN = last (mfi_outs s (map mkm (B2 ++ [c2]))) XNaN.
 Proof. exact mfi_forgets. Qed.
+
+(* ---- binary64, within the property's tolerance (Flocq): the output of SimpleMovingAverage after a full history and the output of
+        a fresh instance fed only a suffix containing the last n inputs differ by at most tau(t) * M ---- *)
+From Coq Require Import Reals.
+From Flocq Require Import Core.
+From TA Require Import Proofs.Wiring Proofs.FloatErr Proofs.FloatSma.
+Theorem C17_sma_binary64_forgets : forall p s xs1 xs2 M, sma_new FOps p = Ok s -> (p < 9007199254740992)%N ->
+  (bpow radix2 (-960) <= M)%R -> Forall (okin M) xs1 -> Forall (okin M) xs2 ->
+  (3 * ((INR (N.to_nat p) + 2) * M + 1) <= BIG)%R -> (INR (length xs1) * u <= / 16)%R -> xs2 <> [] ->
+  (length xs2 <= length xs1)%nat -> lastn (N.to_nat p) xs1 = lastn (N.to_nat p) xs2 ->
+  (Rabs (FR (last (sma_outs' FOps s xs1) 0%float) - FR (last (sma_outs' FOps s xs2) 0%float)) <=
+   (1 / 10 ^ 12 + 1 / 10 ^ 15 * (INR (length xs1) * R_sqrt.sqrt (INR (length xs1)))) * M)%R.
+Proof. exact sma_float_forgets_tau. Qed.
